@@ -122,6 +122,8 @@ class _Link:
         self.timed_out = False
         self.kind = None
         self.elapsed = None
+        self.received = False
+        self.blocked_in_send = False
 
 
 def _side_write(link: _Link, kind: str, elapsed: int) -> None:
@@ -195,7 +197,10 @@ class _SimRecv:
         return False
 
     def recv(self):
-        return self.real.recv()
+        try:
+            return self.real.recv()
+        finally:
+            self.link.received = True
 
     def close(self):
         self.real.close()
@@ -265,11 +270,26 @@ class _SimProcess:
     def join(self, timeout=None):
         if self.link.timed_out and not self.killed:
             return  # in simulated time the child is still busy
+        if self.link.kind == "S" and not self.link.received and not self.killed:
+            # the child announced its result but nobody has received it yet: it can only exit once the pipe takes the
+            # whole message.  Give it a moment of real time; if it is still there it is blocked in send, and a join
+            # before recv lasts its full timeout in simulated time.
+            self.real.join(0.5)
+            if self.real.exitcode is None:
+                run = _RUN
+                run.probes["joins_of_a_child_blocked_in_send"] += 1
+                if timeout is not None:
+                    run.clock.advance(int(max(0.0, timeout) * 1e9))
+                self.link.blocked_in_send = True
+                return
+            return
         self.real.join(60)
 
     @property
     def exitcode(self):
         if self.link.timed_out and not self.killed:
+            return None
+        if getattr(self.link, "blocked_in_send", False) and not self.killed and not self.link.received:
             return None
         if self.real.exitcode is None:
             self.real.join(60)
@@ -309,7 +329,10 @@ class _SimMP:
 # case generation
 # ---------------------------------------------------------------------------------------------
 def _loopy_desc(rng) -> dict:
-    kind = rng.choice(["spin_inf", "helper_spin", "nap", "term", "term", "raise_late", "mixed"])
+    kind = rng.choice(["spin_inf", "helper_spin", "nap", "term", "term", "raise_late", "mixed", "big"])
+    if kind == "big":
+        # a single result larger than the pipe buffer (the child blocks in send until the parent receives)
+        return {"kind": kind, "calls": [["big", rng.choice([2, 3])], ["classify", "kiwi"]]}
     if kind == "spin_inf":
         calls = [["spin", -1]]
         if rng.random() < 0.5:
@@ -386,6 +409,7 @@ class _Run:
                        "assertions_compared": 0, "verification_failed_entries": 0, "fallback_batches": 0,
                        "crashed_member_reported_timeout": 0, "tests_compared": 0,
                        "faulted_single_reported_timeout": 0, "inconclusive_in_process_starved": 0,
+                       "pool_members_with_unused_bindings_removed": 0, "joins_of_a_child_blocked_in_send": 0,
                        "inconclusive_yield_cap": 0}
         self.a_starved = False
         self.faults = {"result_lost_in_transit": 0, "transport_delay": 0, "child_crash": 0, "natural_timeout": 0}
@@ -533,6 +557,12 @@ def run_case(case: dict) -> dict:
         pool.append({"tc": env.chromosome_factory.get_chromosome().test_case, "desc": None})
     for d in case["descs"]:
         pool.append({"tc": _build_desc_tc(env, d), "desc": d})
+    strip_rng = simkit.HRandom(simkit.derive_seed(case["run_seed"], "strip"))
+    for entry in pool:
+        if strip_rng.random() < 0.3:
+            # what the exporter does before it re-executes: bindings nobody reads become bare expression statements
+            entry["tc"].remove_unused_variables()
+            run.probes["pool_members_with_unused_bindings_removed"] += 1
     for idx, how in case.get("crash", {}).items():
         if int(idx) < len(pool):
             run.crash_hashes[_tc_hash(pool[int(idx)]["tc"])] = how
